@@ -7,5 +7,6 @@ CONSTANTS
   MaxLen = 12
   MaxTimeouts = 1
   MaxForged = 2
+  MaxFire = 9
 INVARIANT Report
 CHECK_DEADLOCK FALSE
